@@ -162,7 +162,7 @@ impl Topo {
 
     pub fn make_proc(&self, p: &str, rec: bool) -> Box<dyn anysystem::Process> {
         let kind = self.kinds.get(p).cloned().unwrap_or_default();
-        if kind == "py" || kind == "pyd" || kind == "pys" || kind == "pyr" || kind == "pyo" || kind == "pyu" {
+        if kind == "py" || kind == "pyd" || kind == "pys" || kind == "pyr" || kind == "pyo" || kind == "pyu" || kind == "pyn" {
             let toks: Vec<Vec<String>> = self.rule_tokens.iter().filter(|(q, _)| q == p).map(|(_, w)| w.clone()).collect();
             let class = if kind == "py" {
                 "ScriptProc"
@@ -174,6 +174,8 @@ impl Topo {
                 "ScriptProcOrder"
             } else if kind == "pyu" {
                 "ScriptProcUnpicklable"
+            } else if kind == "pyn" {
+                "ScriptProcNegative"
             } else {
                 "ScriptProcDefault"
             };
@@ -545,7 +547,7 @@ pub fn run() {
                 sc.topo
                     .procs
                     .push((ws[1].to_string(), ws[2].to_string(), ws[3..].contains(&"rec")));
-                for k in ["py", "pyd", "pys", "pyr", "pyo", "pyu", "canon"] {
+                for k in ["py", "pyd", "pys", "pyr", "pyo", "pyu", "pyn", "canon"] {
                     if ws[3..].contains(&k) {
                         sc.topo.kinds.insert(ws[1].to_string(), k.to_string());
                     }
